@@ -802,6 +802,40 @@ let run_case (t : string list) : string =
         phase entries (Stdlib.List.length s.Shutdown.hands) (int_of_nat s.Shutdown.inbound) (int_of_nat s.Shutdown.lost_events)
         (int_of_nat (ShutdownTrace.count_answers true s)) (int_of_nat (ShutdownTrace.count_answers false s))
         (int_of_nat (ShutdownTrace.unanswered s))
+  | "aphist" :: ops ->
+      (* a recorded history of one ActivePeers instance (H4 trace) replayed on ActivePeers.v; every line
+         carries the pre-state the implementation saw (existing / present / current), checked against the model:
+         A:<own>:<peer>:<id>:<i|o>:<existing id|->   R:<peer>:<reason>:<present 0|1>   S:<peer>:<id>:<reason>:<current id|-> *)
+      let st = ref ActivePeers.empty in
+      let bad = ref None in
+      Stdlib.List.iteri
+        (fun k o ->
+          if !bad = None then begin
+            let cur p = match ActivePeers.find (n_of_string p) !st.ActivePeers.conns with
+              | Some (id, _) -> string_of_n id | None -> "-" in
+            let op, pre_ok =
+              match Stdlib.String.split_on_char ':' o with
+              | [ "A"; own; peer; id; orig; existing ] ->
+                  (ActivePeers.Add (n_of_string own, n_of_string peer, n_of_string id,
+                                    (if orig = "o" then ActivePeers.Outbound else ActivePeers.Inbound)),
+                   cur peer = existing)
+              | [ "R"; peer; reason; present ] ->
+                  (ActivePeers.Remove (n_of_string peer, n_of_string reason), (cur peer <> "-") = (present = "1"))
+              | [ "S"; peer; id; reason; current ] ->
+                  (ActivePeers.RemoveStable (n_of_string peer, n_of_string id, n_of_string reason), cur peer = current)
+              | _ -> failwith ("bad aphist op " ^ o)
+            in
+            if not pre_ok then bad := Some k
+            else st := fst (ActivePeers.step !st op)
+          end)
+        ops;
+      let listing = Stdlib.List.sort compare (Stdlib.List.map int_of_n (ActivePeers.peers !st)) in
+      let ev = Stdlib.List.map (fun e -> match e with
+        | ActivePeers.NewPeer p -> "+" ^ string_of_n p
+        | ActivePeers.LostPeer (p, r) -> "-" ^ string_of_n p ^ ":" ^ string_of_n r) !st.ActivePeers.log in
+      Printf.sprintf "%s L=[%s] ev=%s"
+        (match !bad with None -> "accepted" | Some k -> "pre-state-mismatch@" ^ string_of_int k)
+        (Stdlib.String.concat "," (Stdlib.List.map string_of_int listing)) (Stdlib.String.concat "," ev)
   | "netmodel" :: spec :: "|" :: ops ->
       (* netmodel <id:name:alt|-:limit|-;...> | D a b [x] | X a b | R a | K a p aff | P a b | H a b | Q *)
       let nodes =
